@@ -343,7 +343,7 @@ func checkPredClauses(p *core.Prog, r *core.Report, rule string, clauses []predC
 				if h == nil {
 					return
 				}
-				if h.Name() == cl.msg {
+				if core.BaseName(h) == cl.msg {
 					sites = append(sites, msgSite{c, outer})
 					return
 				}
@@ -444,7 +444,7 @@ func SpecPred(p *core.Prog, r *core.Report) {
 				return
 			}
 			switch {
-			case g.Name() == "mustCompileRegexp":
+			case core.BaseName(g) == "mustCompileRegexp":
 				if k, isK := c.Call.Args[0].(*ssa.Const); isK && k.Value != nil && constant.StringVal(k.Value) == `{[^{}]+?}` {
 					okRe = true
 				}
@@ -454,7 +454,7 @@ func SpecPred(p *core.Prog, r *core.Report) {
 				}
 			case g.Name() == h.method:
 				if rc, isRC := c.Call.Args[0].(*ssa.Call); isRC {
-					if rg := core.StaticCallee(rc); rg != nil && rg.Name() == "mustCompileRegexp" {
+					if rg := core.StaticCallee(rc); rg != nil && core.BaseName(rg) == "mustCompileRegexp" {
 						okUse = true
 					}
 				}
